@@ -31,6 +31,7 @@ pub(crate) mod verif_state {
         let mut f0 = ManuallyDrop::new(ch.receive(StateId(0)));
         let mut f1 = ManuallyDrop::new(ch.receive(StateId(0)));
         let mut f2 = ManuallyDrop::new(ch.receive(StateId(0)));
+        if (p & P18) != 0 { arm_alloc(); }
         // model: publication log
         let mut c: u64 = 0; // number of published states = latest id
         let mut latest: u8 = 0;
@@ -145,6 +146,7 @@ pub(crate) mod verif_state {
                     }
                 }
             }
+            oracle!(p, P18, alloc_events() == 0, "C18 state broadcast: an operation allocated or freed heap memory");
             // a pending receiver for which something newer exists, or after close: woken through its latest waker
             let now = [c0a.n(), c0b.n(), c1a.n(), c1b.n(), c2a.n(), c2b.n()];
             let mut i = 0;
@@ -366,6 +368,19 @@ pub(crate) mod verif_state {
     #[cfg(kani)]
     mod proofs {
         use super::*;
+        #[kani::proof]
+        #[kani::unwind(3)]
+        fn repoll_panics() {
+            let ch = Chan::<NoopLock>::new();
+            core::mem::forget(ch.send(Tag(1)));
+            repoll_after_ready(ch.receive(StateId(0)));
+        }
+        #[kani::proof]
+        #[kani::unwind(7)]
+        #[kani::stub(alloc::alloc::alloc, crate::verif::common::stub_alloc)]
+        #[kani::stub(alloc::alloc::dealloc, crate::verif::common::stub_dealloc)]
+        #[kani::stub(alloc::alloc::realloc, crate::verif::common::stub_realloc)]
+        fn hist_c18_n5() { let _ = hist::<NoopLock, _>(&mut KaniSrc, 0, 5, P18); }
         macro_rules! hist_proof {
             ($name:ident, $lock:ty, $n:expr, $p:expr, $unw:expr) => {
                 #[kani::proof]
